@@ -60,7 +60,7 @@ def rebalance_spec(draw):
     with_sub = draw(st.integers(0, 2)) == 0
     if with_sub:
         sub_t = draw(st.lists(st.sampled_from(tickers), min_size=1, max_size=nt, unique=True))
-        spec["sub"] = {"tickers": sub_t, "prior_weight": draw(st.sampled_from([0.0, 0.2, 0.4])), "inner": draw(weights(sub_t, gross_max=1.0, allow_short=False))}
+        spec["sub"] = {"tickers": sub_t, "prior_weight": draw(st.sampled_from([0.0, 0.2, 0.4])), "inner": draw(weights(sub_t, gross_max=1.0, allow_short=draw(st.booleans())))}
     tkeys = draw(st.lists(st.sampled_from(tickers + (["sub"] if with_sub else [])), min_size=0, max_size=nt + 1, unique=True))
     if with_sub and "sub" not in tkeys and draw(st.booleans()):
         tkeys.append("sub")
